@@ -9,33 +9,153 @@ classes on small note sets, against oracles written from the property statement.
    comprehension, none missing, none extra.
  * what "passes a filter" means: the filter object's public table `ar` + `invert_filter`: a chord-size vector / a column
    sequence passes when it IS a row of the table, a type sequence passes when some row holds a superclass at every
-   position; `invert_filter` negates.  Tables are produced by the real `create` with every option bitmask.  How
-   `create` expands the options is not part of the statement and is not judged here."""
+   position; `invert_filter` negates.  Tables are produced by the real `create` with every option bitmask.
+ * which table a filter created from (base rows, options, exclude) stands for ("all filter options" of the statement):
+   the documented meaning of each option (docstrings of the three Option classes), applied to every base row:
+   columns REPEAT = every translation that stays inside the key count, HMIRROR = the left-right mirror image, VMIRROR =
+   the reversed sequence; chord sizes ANY_ORDER = every permutation, AND_LOWER = every vector between 1 and the row,
+   AND_HIGHER = every vector between the row and the key count; types ANY_ORDER = every permutation, MIRROR = the
+   reversed row.  The documentation describes each option on its own; for SEVERAL options at once the table must lie
+   between the union of the single-option expansions and their closure (both readings accepted).  `exclude` must end
+   up as `invert_filter`.  Clauses `*_options_as_documented`.
+
+The generator varies, besides the note set and the 24 group settings: the key count (4, 5, 7), the time scale (negative,
+an hour in, fractions of a ms, int-typed, 0.5 ms steps), zero-length and off-grid holds, the note classes of every game
+(StepMania with mines and rolls as further lists), how the note lists were built (row order, row labels), the entry
+point (from_note_lists with the lists in either order, `include_tails` defaulted, or the Pattern constructor), the way
+arguments are passed (defaults omitted / positional / keywords), earlier group() calls on the same Pattern, one PtnCombo
+used for all calls of a case, calls repeated with the same filter objects, 1..3 base rows per filter."""
 from __future__ import annotations
 
 from collections import Counter
-from itertools import product
+from itertools import permutations, product
 
 from pyvc.dsl import bounded
 from pyvc.bounded import replayer
 
 KEYS = 4
+KEY_COUNTS = [4, 4, 4, 5, 7]
 TIMES = [0.0, 50.0, 100.0]
 V_WINDOWS = [0, 50, 100]
+# alternative time scales: (times, vertical windows); all dyadic so that t0 + v is exact in floating point
+TIME_SETS = {
+    "base": (TIMES, V_WINDOWS),
+    "negative": ([-100.0, -50.0, 0.0], V_WINDOWS),
+    "large": ([3600000.0, 3600050.0, 3600100.0], V_WINDOWS),
+    "fraction": ([0.25, 50.25, 100.25], [0.0, 50.0, 100.0]),
+    "int": ([0, 50, 100], V_WINDOWS),                                   # python ints: int-typed offset column
+    "tight": ([0.0, 0.5, 1.0], [0, 0.5, 1.0]),                          # several times inside one millisecond
+}
 H_WINDOWS = [None, 0, 1, 2]
+H_WIDE = [2, 2, 3, 10]                                                  # the last window of a note set, incl. >= key count
 HOLD_LENGTHS = [50.0, 100.0]
+HOLD_LENGTHS_MORE = [0.0, 25.0]                                         # tail on its own head / off the time grid
 TYPE_NAMES = ["Hit", "Hold", "HoldTail", "object"]
+TYPE_NAMES_MORE = ["hit", "hold"]                                       # the exact item classes of the lists
+GAMES = ["base", "base", "osu", "osu", "qua", "sm", "sm", "bms", "o2j"]
+JUNK_T = -99999.0
+
+# The documentation of AND_LOWER / AND_HIGHER speaks of "the current" base row.  With False, a table that exceeds the
+# per-row reading for SEVERAL base rows is only counted (extra.chord_tables_beyond_per_row_bounds); with True it is the
+# failing clause `chord_filter_lower_higher_per_base_row` (kept apart from `chord_filter_options_as_documented`).
+ASSERT_PER_ROW_BOUNDS = False  # the Option docstring defines AND_LOWER / AND_HIGHER for ONE base row only; with several rows reamber pools them into one bounding box.
+# Neither the property nor the docstring says which reading is meant, so this is counted (extra.chord_tables_beyond_per_row_bounds), not asserted (DESIGN section 10).
 
 
 def _types(cls):
     from reamber.base.Hit import Hit
     from reamber.base.Hold import Hold, HoldTail
 
+    base = dict(Hit=Hit, Hold=Hold, HoldTail=HoldTail, object=object)
     if cls == "osu":
         from reamber.osu import OsuHit, OsuHold
 
-        return dict(Hit=Hit, Hold=Hold, HoldTail=HoldTail, object=object, hit=OsuHit, hold=OsuHold)
-    return dict(Hit=Hit, Hold=Hold, HoldTail=HoldTail, object=object, hit=Hit, hold=Hold)
+        return dict(base, hit=OsuHit, hold=OsuHold)
+    if cls == "qua":
+        from reamber.quaver import QuaHit, QuaHold
+
+        return dict(base, hit=QuaHit, hold=QuaHold)
+    if cls == "sm":
+        from reamber.sm import SMHit, SMHold, SMMine, SMRoll
+
+        return dict(base, hit=SMHit, hold=SMHold, hit2=SMMine, hold2=SMRoll)
+    if cls == "bms":
+        from reamber.bms import BMSHit, BMSHold
+
+        return dict(base, hit=BMSHit, hold=BMSHold)
+    if cls == "o2j":
+        from reamber.o2jam import O2JHit, O2JHold
+
+        return dict(base, hit=O2JHit, hold=O2JHold)
+    return dict(base, hit=Hit, hold=Hold)
+
+
+def _list_classes(cls):
+    """kind -> (list class, extra constructor arguments of its items)"""
+    if cls == "osu":
+        from reamber.osu.lists.notes import OsuHitList, OsuHoldList
+
+        return dict(hit=(OsuHitList, {}), hold=(OsuHoldList, {}))
+    if cls == "qua":
+        from reamber.quaver.lists.notes import QuaHitList, QuaHoldList
+
+        return dict(hit=(QuaHitList, {"keysounds": []}), hold=(QuaHoldList, {"keysounds": []}))
+    if cls == "sm":
+        from reamber.sm.lists.notes import SMHitList, SMHoldList, SMMineList, SMRollList
+
+        return dict(hit=(SMHitList, {}), hold=(SMHoldList, {}), hit2=(SMMineList, {}), hold2=(SMRollList, {}))
+    if cls == "bms":
+        from reamber.bms.lists.notes import BMSHitList, BMSHoldList
+
+        return dict(hit=(BMSHitList, {}), hold=(BMSHoldList, {}))
+    if cls == "o2j":
+        from reamber.o2jam.lists.notes import O2JHitList, O2JHoldList
+
+        return dict(hit=(O2JHitList, {}), hold=(O2JHoldList, {}))
+    from reamber.base.lists.notes.HitList import HitList
+    from reamber.base.lists.notes.HoldList import HoldList
+
+    return dict(hit=(HitList, {}), hold=(HoldList, {}))
+
+
+def _mk_list(cls, rows, mk, lay):
+    """One note list from its rows (construction order) through PUBLIC list operations only."""
+    import numpy as np
+
+    lay = lay or {}
+    via = lay.get("via", "ctor")
+    items = [mk(r) for r in rows]
+    if via == "ctor" or not items:
+        return cls(items)
+    if via == "sorted":
+        return cls(items).sorted()
+    if via == "sorted_reverse":
+        return cls(items).sorted(reverse=True)
+    if via == "append_sorted":
+        return cls(items[:-1]).append(items[-1], sort=True)
+    if via == "filter":                                         # junk rows interleaved, then removed by a mask / after()
+        junk = set(lay["junk_at"])
+        full, keep, it = [], [], iter(items)
+        for p in range(len(items) + len(junk)):
+            if p in junk:
+                jr = list(rows[0])
+                jr[1] = type(rows[0][1])(JUNK_T)
+                full.append(mk(jr))
+                keep.append(False)
+            else:
+                full.append(next(it))
+                keep.append(True)
+        lst = cls(full)
+        return lst.after(JUNK_T) if lay.get("by") == "after" else lst[np.array(keep)]
+    if via == "labels":                                         # a list made from a DataFrame that carries these row labels
+        return cls(cls(items).df.set_axis(lay["labels"]))
+    raise ValueError(via)
+
+
+def _kind(note):
+    """hit / hold / hit2 / hold2 (the 4th entry of a note selects the game's second list class of that kind)"""
+    k = "hit" if note[2] is None else "hold"
+    return k + "2" if len(note) > 3 and note[3] else k
 
 
 def _pattern(case):
@@ -43,23 +163,69 @@ def _pattern(case):
     from reamber.algorithms.pattern import Pattern
 
     T = _types(case["cls"])
-    if case["cls"] == "osu":
-        from reamber.osu.lists.notes import OsuHitList as HL, OsuHoldList as OL
+    if case.get("np_scalars"):
+        import numpy as np
+
+        def num(x):
+            return np.int64(x) if isinstance(x, int) else np.float64(x)
     else:
-        from reamber.base.lists.notes.HitList import HitList as HL
-        from reamber.base.lists.notes.HoldList import HoldList as OL
-    hits = [(c, t) for c, t, ln in case["notes"] if ln is None]
-    holds = [(c, t, ln) for c, t, ln in case["notes"] if ln is not None]
-    hl = HL([T["hit"](offset=t, column=c) for c, t in hits])
-    ol = OL([T["hold"](offset=t, column=c, length=ln) for c, t, ln in holds])
+        def num(x):
+            return x
+    tails = case["tails"]
     want = Counter()
-    for c, t in hits:
-        want[(c, float(t), T["hit"])] += 1
-    for c, t, ln in holds:
-        want[(c, float(t), T["hold"])] += 1
-        if case["tails"]:
+    for note in case["notes"]:
+        c, t, ln = note[:3]
+        want[(c, float(t), T[_kind(note)])] += 1
+        if ln is not None and tails:
             want[(c, float(t) + float(ln), T["HoldTail"])] += 1
-    return Pattern.from_note_lists([hl, ol], include_tails=case["tails"]), want
+    if case.get("entry") == "ctor":                                 # Pattern(cols, offsets, types), any order of the entries
+        cols, offs, tys = [], [], []
+        for note in case["notes"]:
+            c, t, ln = note[:3]
+            cols.append(num(c)), offs.append(num(t)), tys.append(T[_kind(note)])
+        for note in case["notes"]:
+            c, t, ln = note[:3]
+            if ln is not None and tails:
+                cols.append(num(c)), offs.append(num(t + ln)), tys.append(T["HoldTail"])
+        if case.get("ctor_order"):
+            o = case["ctor_order"]
+            cols, offs, tys = [cols[i] for i in o], [offs[i] for i in o], [tys[i] for i in o]
+        return Pattern(cols, offs, tys), want
+    LC = _list_classes(case["cls"])
+    lay = case.get("layout") or {}
+    lists = []
+    for kind in ("hit", "hold", "hit2", "hold2"):
+        if kind not in LC:
+            continue
+        rows = [n for n in case["notes"] if _kind(n) == kind]
+        L, kw = LC[kind]
+        if kind.startswith("hit"):
+            lists.append(_mk_list(L, rows, lambda r, kind=kind, kw=kw: T[kind](offset=num(r[1]), column=num(r[0]), **kw), lay.get(kind)))
+        else:
+            lists.append(_mk_list(L, rows, lambda r, kind=kind, kw=kw: T[kind](offset=num(r[1]), column=num(r[0]), length=num(r[2]), **kw), lay.get(kind)))
+    if case.get("entry") == "lists_reversed":
+        lists.reverse()
+    if case.get("tails_arg") == "default" and tails:
+        return Pattern.from_note_lists(lists), want                 # include_tails defaults to True
+    if case.get("tails_arg") == "positional":
+        return Pattern.from_note_lists(lists, tails), want
+    return Pattern.from_note_lists(lists, include_tails=tails), want
+
+
+def _group(p, v, h, jack, how):
+    """group() with every argument by keyword / positionally / with the arguments that equal their default left out."""
+    if how == "positional":
+        return p.group(v, h, jack)
+    if how == "defaults":
+        kw = {}
+        if v != 50:
+            kw["v_window"] = v
+        if h is not None:
+            kw["h_window"] = h
+        if jack is not True:
+            kw["avoid_jack"] = jack
+        return p.group(**kw)
+    return p.group(v_window=v, h_window=h, avoid_jack=jack)
 
 
 def _plain(groups):
@@ -91,18 +257,102 @@ def _check_grouping(groups, want, v, h, jack):
 
 
 # ---------------------------------------------------------------------------------------------- filters
-def _mk_filter(kind, spec, cls):
+def _mk_filter(kind, spec, cls, keys=KEYS):
     """The real filter object from a JSON-able spec {rows, options, exclude}; None stays None."""
     if spec is None:
         return None
     from reamber.algorithms.pattern.filters import PtnFilterChord, PtnFilterCombo, PtnFilterType
 
     if kind == "chord":
-        return PtnFilterChord.create([list(r) for r in spec["rows"]], keys=KEYS, options=spec["options"], exclude=spec["exclude"])
+        return PtnFilterChord.create([list(r) for r in spec["rows"]], keys=keys, options=spec["options"], exclude=spec["exclude"])
     if kind == "combo":
-        return PtnFilterCombo.create([list(r) for r in spec["rows"]], keys=KEYS, options=spec["options"], exclude=spec["exclude"])
+        return PtnFilterCombo.create([list(r) for r in spec["rows"]], keys=keys, options=spec["options"], exclude=spec["exclude"])
     T = _types(cls)
     return PtnFilterType.create([[T[n] for n in r] for r in spec["rows"]], options=spec["options"], exclude=spec["exclude"])
+
+
+def _documented_tables(kind, rows, options, keys):
+    """(lower, upper): the rows a filter created from these base rows must hold according to the documented meaning
+    of each selected option applied to each base row (lower = union of the single-option expansions), and the rows it
+    may hold at most (upper = closure under the selected options)."""
+    from reamber.algorithms.pattern.filters import PtnFilterChord, PtnFilterCombo, PtnFilterType
+
+    rows = [tuple(r) for r in rows]
+    ops = []
+    if kind == "combo":
+        O = PtnFilterCombo.Option
+        if options & O.REPEAT:          # "repeats the base pattern without changing its orientation": translations inside 0..keys-1
+            ops.append(lambda p: [tuple(c + d for c in p) for d in range(-keys, keys + 1) if all(0 <= c + d < keys for c in p)])
+        if options & O.HMIRROR:         # "reflects the pattern on the y-axis": [0][1] -> [2][3]... i.e. [keys-1-c]
+            ops.append(lambda p: [tuple(keys - 1 - c for c in p)])
+        if options & O.VMIRROR:         # "reflects the pattern on the x-axis": [0][1] -> [1][0]
+            ops.append(lambda p: [tuple(reversed(p))])
+    elif kind == "chord":
+        O = PtnFilterChord.Option
+        if options & O.ANY_ORDER:
+            ops.append(lambda p: list(permutations(p)))
+        if options & O.AND_LOWER:       # [2][2][1] -> [2][2][1],[1][2][1],[2][1][1],[1][1][1]
+            ops.append(lambda p: list(product(*[range(1, x + 1) for x in p])))
+        if options & O.AND_HIGHER:      # "just the opposite of AndLower"
+            ops.append(lambda p: list(product(*[range(x, keys + 1) for x in p])))
+    else:
+        O = PtnFilterType.Option
+        if options & O.ANY_ORDER:
+            ops.append(lambda p: list(permutations(p)))
+        if options & O.MIRROR:
+            ops.append(lambda p: [tuple(reversed(p))])
+    lower = set(rows) | {q for op in ops for p in rows for q in op(p)}
+    if kind == "chord":
+        # the closure in closed form (the generic loop below would expand thousands of rows): permutations first, then the
+        # boxes; AND_LOWER and AND_HIGHER together reach every vector (up to [keys]*n, then down from there)
+        O = PtnFilterChord.Option
+        start = {q for p in rows for q in permutations(p)} if options & O.ANY_ORDER else set(rows)
+        if options & O.AND_LOWER and options & O.AND_HIGHER:
+            return lower, set(product(range(1, keys + 1), repeat=len(rows[0])))
+        if options & O.AND_LOWER:
+            return lower, {q for p in start for q in product(*[range(1, x + 1) for x in p])}
+        if options & O.AND_HIGHER:
+            return lower, {q for p in start for q in product(*[range(x, keys + 1) for x in p])}
+        return lower, start
+    upper, todo = set(rows), list(rows)
+    while todo:
+        p = todo.pop()
+        for op in ops:
+            for q in op(p):
+                if q not in upper:
+                    upper.add(q)
+                    todo.append(q)
+    return lower, upper
+
+
+def _check_table(kind, spec, flt, keys, cls, observe=None):
+    """Clauses `<kind>_filter_options_as_documented`: the created filter's table against the documented expansion."""
+    T = _types(cls)
+    rows = [[T[n] for n in r] for r in spec["rows"]] if kind == "type" else spec["rows"]
+    lower, upper = _documented_tables(kind, rows, spec["options"], keys)
+    table = {tuple(r) for r in flt.ar.tolist()}
+    name = {"combo": "column_filter_options_as_documented", "chord": "chord_filter_options_as_documented", "type": "type_filter_options_as_documented"}[kind]
+
+    def show(s):
+        return sorted([[getattr(x, "__name__", x) for x in r] for r in s], key=repr)[:12]
+
+    failed = []
+    if bool(flt.invert_filter) != bool(spec["exclude"]):
+        failed.append((name, f"exclude={spec['exclude']} but invert_filter={flt.invert_filter}"))
+    if not lower <= table:
+        failed.append((name, f"base rows {show(rows)} options {spec['options']} keys {keys}: documented rows missing from the table: {show(lower - table)}; table {show(table)}"))
+    if not table <= upper:
+        beyond = table - upper
+        per_row = kind == "chord" and len(spec["rows"]) > 1
+        if per_row:
+            # is every surplus row inside the bounding box of the base rows' expansions (several rows pooled)?
+            if observe is not None:
+                observe["chord_tables_beyond_per_row_bounds"] += 1
+            if ASSERT_PER_ROW_BOUNDS:
+                failed.append(("chord_filter_lower_higher_per_base_row", f"base rows {show(rows)} options {spec['options']} keys {keys}: the table holds {show(beyond)}, which no documented option produces from any single base row; table {show(table)}"))
+        else:
+            failed.append((name, f"base rows {show(rows)} options {spec['options']} keys {keys}: rows that no documented option produces: {show(beyond)}; table {show(table)}"))
+    return failed
 
 
 def _row_member(flt, vec):
@@ -151,43 +401,58 @@ def _show(cn, limit=6):
     return f"{len(items)}: {sorted(items, key=repr)[:limit]}"
 
 
-def _check_combos(groups_real, groups, cfg, cls):
+def _check_combos(pc, groups, cfg, cls, keys=KEYS, observe=None):
     import numpy as np
-    from reamber.algorithms.pattern.combos import PtnCombo
 
     failed = []
-    pc = PtnCombo(groups_real)
+    defaults = cfg.get("call") == "defaults"
+    rounds = 2 if cfg.get("twice") else 1                      # the same call again, with the same filter objects
     if cfg["kind"] == "combinations":
         n = cfg["size"]
-        chord, combo, typ = (_mk_filter(k, cfg[k], cls) for k in ("chord", "combo", "type"))
-        got = _reported(pc.combinations(size=n, make_size2=cfg["size2"],
-                                        chord_filter=chord.filter if chord else None,
-                                        combo_filter=combo.filter if combo else None,
-                                        type_filter=typ.filter if typ else None))
+        chord, combo, typ = (_mk_filter(k, cfg[k], cls, keys) for k in ("chord", "combo", "type"))
+        for k, f in (("chord", chord), ("combo", combo), ("type", typ)):
+            if f is not None:
+                failed += _check_table(k, cfg[k], f, keys, cls, observe)
         want = _oracle_sequences(groups, n, chord, combo, typ)
         if cfg["size2"]:
             want = _pairs(want)
-        if got != want:
-            # is the whole difference explained by the chord-size filter's own verdicts?
-            if chord is not None:
-                alt = _oracle_sequences(groups, n, chord, combo, typ, chord_verdict=lambda s: bool(chord.filter(np.array(s))))
+        for rnd in range(rounds):
+            if defaults:                                       # arguments that equal their default are left out
+                kw = {}
+                if n != 2:
+                    kw["size"] = n
                 if cfg["size2"]:
-                    alt = _pairs(alt)
-                if alt == got:
-                    bad = next(s for i in range(len(groups) - n + 1) for s in [[len(g) for g in groups[i:i + n]]] if bool(chord.filter(np.array(s))) != _row_member(chord, s))
-                    failed.append(("chord_filter_exact", f"chord sizes {bad}: filter says {bool(chord.filter(np.array(bad)))}, table {chord.ar.tolist()} exclude={chord.invert_filter}; extra {_show(got - want)}, missing {_show(want - got)}"))
-                    return failed
-            if got - want:
-                failed.append(("combinations_none_extra", f"size {n}: extra {_show(got - want)}"))
-            if want - got:
-                failed.append(("combinations_none_missing", f"size {n}: missing {_show(want - got)}"))
+                    kw["make_size2"] = True
+                for nme, f in (("chord_filter", chord), ("combo_filter", combo), ("type_filter", typ)):
+                    if f is not None:
+                        kw[nme] = f.filter
+                got = _reported(pc.combinations(**kw))
+            else:
+                got = _reported(pc.combinations(size=n, make_size2=cfg["size2"],
+                                                chord_filter=chord.filter if chord else None,
+                                                combo_filter=combo.filter if combo else None,
+                                                type_filter=typ.filter if typ else None))
+            if got != want:
+                tag = f"size {n}" + (" (second identical call)" if rnd else "")
+                # is the whole difference explained by the chord-size filter's own verdicts?
+                if chord is not None:
+                    alt = _oracle_sequences(groups, n, chord, combo, typ, chord_verdict=lambda s: bool(chord.filter(np.array(s))))
+                    if cfg["size2"]:
+                        alt = _pairs(alt)
+                    if alt == got:
+                        bad = next(s for i in range(len(groups) - n + 1) for s in [[len(g) for g in groups[i:i + n]]] if bool(chord.filter(np.array(s))) != _row_member(chord, s))
+                        failed.append(("chord_filter_exact", f"chord sizes {bad}: filter says {bool(chord.filter(np.array(bad)))}, table {chord.ar.tolist()} exclude={chord.invert_filter}; extra {_show(got - want)}, missing {_show(want - got)}"))
+                        return failed
+                if got - want:
+                    failed.append(("combinations_none_extra", f"{tag}: extra {_show(got - want)}"))
+                if want - got:
+                    failed.append(("combinations_none_missing", f"{tag}: missing {_show(want - got)}"))
         return failed
 
     T = _types(cls)
     tail = T["HoldTail"]
     if cfg["kind"] == "jacks":
         n = cfg["length"]
-        got = _reported(pc.template_jacks(n, KEYS))
         # docstring: jacks that last at least n notes - n consecutive groups, one column, no hold tail among them
         want = Counter()
         for i in range(len(groups) - n + 1):
@@ -195,13 +460,14 @@ def _check_combos(groups_real, groups, cfg, cls):
                 if len({c for c, _, _ in seq}) == 1 and not any(issubclass(t, tail) for _, _, t in seq):
                     want[tuple(seq)] += 1
         want = _pairs(want)
-        if got != want:
-            failed.append(("template_jacks", f"length {n}: extra {_show(got - want)}, missing {_show(want - got)}"))
+        for rnd in range(rounds):
+            got = _reported(pc.template_jacks(minimum_length=n, keys=keys) if defaults else pc.template_jacks(n, keys))
+            if got != want:
+                failed.append(("template_jacks", f"length {n}: extra {_show(got - want)}, missing {_show(want - got)}"))
         return failed
 
     if cfg["kind"] == "chord_stream":
         p, s = cfg["primary"], cfg["secondary"]
-        got = _reported(pc.template_chord_stream(p, s, KEYS, and_lower=cfg["and_lower"], include_jack=cfg["include_jack"]))
         # docstring: pairs from two consecutive groups of sizes (primary, secondary) - with and_lower any sizes up to
         # them in either order -, never a hold tail, never the same column twice unless jacks are included
         want = Counter()
@@ -216,40 +482,56 @@ def _check_combos(groups_real, groups, cfg, cls):
                 if not cfg["include_jack"] and x[0] == y[0]:
                     continue
                 want[(x, y)] += 1
-        if got != want:
-            sizes = [len(g) for g in groups]
-            what = "template_chord_stream"
-            # is the whole difference explained by the verdicts of the chord-size filter the template is documented to build?
-            from reamber.algorithms.pattern.filters import PtnFilterChord
+        for rnd in range(rounds):
+            if defaults:                                       # keywords; and_lower / include_jack left out when False
+                kw = dict(primary=p, secondary=s, keys=keys)
+                if cfg["and_lower"]:
+                    kw["and_lower"] = True
+                if cfg["include_jack"]:
+                    kw["include_jack"] = True
+                got = _reported(pc.template_chord_stream(**kw))
+            else:
+                got = _reported(pc.template_chord_stream(p, s, keys, and_lower=cfg["and_lower"], include_jack=cfg["include_jack"]))
+            if got != want:
+                sizes = [len(g) for g in groups]
+                what = "template_chord_stream"
+                # is the whole difference explained by the verdicts of the chord-size filter the template is documented to build?
+                from reamber.algorithms.pattern.filters import PtnFilterChord
 
-            flt = PtnFilterChord.create([[p, s]], keys=KEYS, options=(PtnFilterChord.Option.ANY_ORDER | PtnFilterChord.Option.AND_LOWER) if cfg["and_lower"] else 0)
-            alt = Counter()
-            for i in range(len(groups) - 1):
-                if not bool(flt.filter(np.array([len(groups[i]), len(groups[i + 1])]))):
-                    continue
-                for x, y in product(groups[i], groups[i + 1]):
-                    if issubclass(x[2], tail) or issubclass(y[2], tail) or (not cfg["include_jack"] and x[0] == y[0]):
+                flt = PtnFilterChord.create([[p, s]], keys=keys, options=(PtnFilterChord.Option.ANY_ORDER | PtnFilterChord.Option.AND_LOWER) if cfg["and_lower"] else 0)
+                alt = Counter()
+                for i in range(len(groups) - 1):
+                    if not bool(flt.filter(np.array([len(groups[i]), len(groups[i + 1])]))):
                         continue
-                    alt[(x, y)] += 1
-            if alt == got:
-                what = "chord_filter_exact"
-            failed.append((what, f"primary {p} secondary {s} and_lower {cfg['and_lower']} include_jack {cfg['include_jack']}, group sizes {sizes}: extra {_show(got - want)}, missing {_show(want - got)}"))
+                    for x, y in product(groups[i], groups[i + 1]):
+                        if issubclass(x[2], tail) or issubclass(y[2], tail) or (not cfg["include_jack"] and x[0] == y[0]):
+                            continue
+                        alt[(x, y)] += 1
+                if alt == got:
+                    what = "chord_filter_exact"
+                failed.append((what, f"primary {p} secondary {s} and_lower {cfg['and_lower']} include_jack {cfg['include_jack']}, group sizes {sizes}: extra {_show(got - want)}, missing {_show(want - got)}"))
         return failed
     raise ValueError(cfg["kind"])
 
 
-def _run_case(case):
+def _run_case(case, observe=None):
+    from reamber.algorithms.pattern.combos import PtnCombo
+
     failed = []
+    keys = case.get("keys", KEYS)
     try:
         p, want = _pattern(case)
-        real = p.group(v_window=case["v"], h_window=case["h"], avoid_jack=case["jack"])
+        for v, h, j in case.get("before", []):                 # earlier groupings of the same Pattern object
+            p.group(v_window=v, h_window=h, avoid_jack=j)
+        real = _group(p, case["v"], case["h"], case["jack"], case.get("group_call"))
     except Exception as ex:
         return [("grouping_completes", f"{type(ex).__name__}: {ex}")]
     groups = _plain(real)
     failed += _check_grouping(groups, want, case["v"], case["h"], case["jack"])
+    pc = PtnCombo(real) if case.get("combos") else None        # ONE PtnCombo for all the calls of the case
     for cfg in case.get("combos", []):
         try:
-            failed += _check_combos(real, groups, cfg, case["cls"])
+            failed += _check_combos(pc, groups, cfg, case["cls"], keys, observe)
         except Exception as ex:
             failed.append(("combinations_complete", f"{cfg}: {type(ex).__name__}: {ex}"))
     seen, out = set(), []
@@ -261,71 +543,197 @@ def _run_case(case):
 
 
 # ---------------------------------------------------------------------------------------------- generation
-def _random_notes(rng):
+def _random_notes(rng, keys=KEYS, times=TIMES, lengths=HOLD_LENGTHS, second_kinds=False):
     k = rng.choice([0, 1, 2, 3, 3, 4, 4, 5, 5, 6, 6, 6])
-    cells = [(c, t) for c in range(KEYS) for t in TIMES]
+    cells = [(c, t) for c in range(keys) for t in times]
     notes = []
     for c, t in rng.sample(cells, k):
-        notes.append([c, t, rng.choice(HOLD_LENGTHS) if rng.random() < 0.3 else None])
+        notes.append([c, t, rng.choice(lengths) if rng.random() < 0.3 else None])
     if notes and rng.random() < 0.1:                                   # a second note on an occupied cell
         c, t, _ = rng.choice(notes)
         if len(notes) < 6:
             notes.append([c, t, rng.choice([None, 50.0])])
+    if second_kinds:                                                   # StepMania: mines / rolls are further note lists
+        for n in notes:
+            if rng.random() < 0.35:
+                n.append(1)
+    if isinstance(times[0], int):                                      # int-typed charts: lengths are ints too
+        for n in notes:
+            if n[2] is not None:
+                n[2] = int(n[2])
     rng.shuffle(notes)
     return notes
 
 
-def _random_filter(rng, kind, n):
+def _random_rows(rng, kind, n, keys):
+    """1..3 base rows of a filter; for columns often several rows of different extent."""
+    rows = rng.choice([1, 1, 1, 2, 2, 3])
+    if kind == "chord":
+        return [[rng.randrange(1, keys + 1) for _ in range(n)] for _ in range(rows)]
+    if kind == "combo":
+        base = [[rng.randrange(keys) for _ in range(n)] for _ in range(rows)]
+        if rng.random() < 0.3:
+            base[0] = [0] * n
+        return base
+    names = TYPE_NAMES + (TYPE_NAMES_MORE if rng.random() < 0.3 else [])
+    return [[rng.choice(names) for _ in range(n)] for _ in range(rows)]
+
+
+def _random_filter(rng, kind, n, keys=KEYS):
     if rng.random() < 0.4:
         return None
-    rows = rng.choice([1, 1, 2])
+    rows = _random_rows(rng, kind, n, keys)
     if kind == "chord":
-        return dict(rows=[[rng.randrange(1, KEYS + 1) for _ in range(n)] for _ in range(rows)], options=rng.randrange(8), exclude=rng.random() < 0.3)
+        return dict(rows=rows, options=rng.randrange(8), exclude=rng.random() < 0.3)
     if kind == "combo":
-        base = [[rng.randrange(KEYS) for _ in range(n)] for _ in range(rows)]
-        if rng.random() < 0.3:
-            base = [[0] * n]
-        return dict(rows=base, options=rng.randrange(8), exclude=rng.random() < 0.3)
-    return dict(rows=[[rng.choice(TYPE_NAMES) for _ in range(n)] for _ in range(rows)], options=rng.randrange(4), exclude=rng.random() < 0.4)
+        return dict(rows=rows, options=rng.randrange(8), exclude=rng.random() < 0.3)
+    return dict(rows=rows, options=rng.randrange(4), exclude=rng.random() < 0.4)
 
 
-def _random_cfgs(rng):
+def _random_cfgs(rng, keys=KEYS):
     cfgs = []
     for _ in range(4):
         n = rng.choice([2, 2, 3, 4])
-        cfgs.append(dict(kind="combinations", size=n, size2=rng.random() < 0.3, chord=_random_filter(rng, "chord", n), combo=_random_filter(rng, "combo", n), type=_random_filter(rng, "type", n)))
+        cfgs.append(dict(kind="combinations", size=n, size2=rng.random() < 0.3, chord=_random_filter(rng, "chord", n, keys), combo=_random_filter(rng, "combo", n, keys), type=_random_filter(rng, "type", n, keys)))
     cfgs.append(dict(kind="jacks", length=rng.choice([2, 2, 3, 4])))
     cfgs.append(dict(kind="chord_stream", primary=rng.randrange(1, 4), secondary=rng.randrange(1, 3), and_lower=rng.random() < 0.5, include_jack=rng.random() < 0.5))
+    for c in cfgs:
+        if rng.random() < 0.3:
+            c["call"] = "defaults"
+        if rng.random() < 0.15:
+            c["twice"] = True
     return cfgs
 
 
-@bounded("C20", note="real Pattern.group + PtnCombo.combinations + templates on note sets of <= 6 notes (4 columns x 3 times, holds with tails), every window / jack setting, sizes 2..4, every filter option bitmask, against the statement (partition, window facts, set-comprehension oracle)")
+def _random_layout(rng, rows):
+    n = len(rows)
+    if n == 0 or rng.random() < 0.45:
+        return None
+    r = rng.random()
+    if r < 0.25:
+        return dict(via="sorted")
+    if r < 0.33:
+        return dict(via="sorted_reverse")
+    if r < 0.45 and n >= 2:
+        return dict(via="append_sorted")
+    if r < 0.65:
+        k = rng.choice([1, 1, 2])
+        return dict(via="filter", junk_at=sorted(rng.sample(range(n + k), k)), by=rng.choice(["mask", "after"]))
+    q = rng.random()
+    if q < 0.35:
+        labels = rng.sample(range(n), n)
+    elif q < 0.5:
+        labels = list(range(n - 1, -1, -1))
+    elif q < 0.65:
+        k = rng.randrange(1, 6)
+        labels = list(range(k, k + n))
+    elif q < 0.85:
+        labels = rng.sample(range(3 * n + 2), n)
+    else:
+        labels = [rng.randrange(max(1, n - 1)) for _ in range(n)]     # duplicated labels
+    return dict(via="labels", labels=labels)
+
+
+def _random_base(rng, plain=False):
+    """One note set with everything that stays the same over its 24 groupings.  plain=True: the original scope."""
+    if plain:
+        notes = _random_notes(rng)
+        return dict(notes=notes, cls=rng.choice(["base", "base", "osu"]), tails=rng.random() < 0.6), TIMES, V_WINDOWS, H_WINDOWS
+    keys = rng.choice(KEY_COUNTS)
+    tname = rng.choice(["base"] * 8 + ["negative", "large", "fraction", "int", "int", "tight", "tight"])
+    times, vws = TIME_SETS[tname]
+    cls = rng.choice(GAMES)
+    lengths = HOLD_LENGTHS + (HOLD_LENGTHS_MORE if rng.random() < 0.4 else [])
+    if tname == "tight":
+        lengths = [0.5, 1.0] + ([0.0, 0.25] if rng.random() < 0.4 else [])
+    elif tname == "int":
+        lengths = [x for x in lengths if float(x).is_integer()]
+    notes = _random_notes(rng, keys, times, lengths, second_kinds=(cls == "sm"))
+    base = dict(notes=notes, cls=cls, tails=rng.random() < 0.6, keys=keys, times=tname)
+    r = rng.random()
+    if r < 0.15:
+        base["entry"] = "ctor"
+        n_entries = len(notes) + (sum(1 for n in notes if n[2] is not None) if base["tails"] else 0)
+        if rng.random() < 0.7:
+            base["ctor_order"] = rng.sample(range(n_entries), n_entries)
+    else:
+        if r < 0.4:
+            base["entry"] = "lists_reversed"
+        layout = {}
+        for kind in ("hit", "hold", "hit2", "hold2"):
+            lay = _random_layout(rng, [n for n in notes if _kind(n) == kind])
+            if lay:
+                layout[kind] = lay
+        if layout:
+            base["layout"] = layout
+        q = rng.random()
+        if q < 0.25:
+            base["tails_arg"] = "default"
+        elif q < 0.4:
+            base["tails_arg"] = "positional"
+    if rng.random() < 0.08:
+        base["np_scalars"] = True
+    hws = H_WINDOWS[:3] + [rng.choice(H_WIDE)]
+    if rng.random() < 0.3:
+        vws = [float(v) for v in vws]                               # float windows
+    return base, times, vws, hws
+
+
+@bounded("C20", note="real Pattern.group + PtnCombo.combinations + templates on note sets of <= 6 notes (4/5/7 columns x 3 times on six time scales, holds with tails, note classes of every game, lists in any row order / labelling, both entry points), every window / jack setting, sizes 2..4, every filter option bitmask with 1..3 base rows, against the statement (partition, window facts, set-comprehension oracle, documented option tables)")
 def grouping_and_combinations_vs_statement(rep):
     rng = rep.rng
     N = rep.n(700, 25000)
-    rep.bound = (f"up to {N} seeded note sets: 0..6 notes on distinct cells of {KEYS} columns x times {TIMES} (10% with a second note on an occupied cell), 30% holds of length {HOLD_LENGTHS} "
-                 f"with tails requested or not, base and osu note classes; EACH note set is grouped with all 24 settings v in {V_WINDOWS} x h in {H_WINDOWS} x avoid_jack in (True, False); "
-                 "for 3 of the 24 groupings: 4 combinations() calls (size 2..4, make_size2 30%, chord-size / column / type filter each absent 40% or created by the real create() from 1-2 random rows "
-                 "with a random option bitmask (chord 0..7, column 0..7, type 0..3) and exclude), 1 template_jacks (length 2..4), 1 template_chord_stream")
-    rep.rule = "a case is one (note set, tails, v, h, avoid_jack, list of combination / template calls); non-trivial when the note set has >= 2 notes"
+    rep.bound = (f"up to {N} seeded note sets: 0..6 notes on distinct cells of K columns x 3 times (10% with a second note on an occupied cell), 30% holds with tails requested or not; "
+                 f"one note set in 4 in the original scope (K={KEYS}, times {TIMES}, hold lengths {HOLD_LENGTHS}, base / osu classes, from_note_lists([hits, holds], include_tails=..), keyword arguments); the others: K in {sorted(set(KEY_COUNTS))}, "
+                 f"times {({k: v[0] for k, v in TIME_SETS.items()})}, hold lengths also {HOLD_LENGTHS_MORE} (40%), note classes of base / osu / quaver / sm (with mine and roll lists) / bms / o2jam, 8% numpy scalars, "
+                 "15% through Pattern(cols, offsets, types) in any entry order, else from_note_lists with the lists in either order, include_tails by keyword / positional / defaulted, each note list in 55% built by "
+                 ".sorted() / .sorted(reverse=True) / append(sort=True) / a filter removing interleaved rows / a DataFrame with permuted, reversed, offset, gappy or duplicated labels; "
+                 f"EACH note set is grouped with all 24 settings v in 3 windows (0, one step, two steps of its time scale; 30% as floats) x h in {H_WINDOWS[:3]} + one of {sorted(set(H_WIDE))} x avoid_jack in (True, False), "
+                 "15% positionally, 25% with default-valued arguments left out, 20% after 1-2 other group() calls on the same Pattern; "
+                 "for 3 of the 24 groupings, on ONE PtnCombo: 4 combinations() calls (size 2..4, make_size2 30%, chord-size / column / type filter each absent 40% or created by the real create() from 1-3 random rows "
+                 "with a random option bitmask (chord 0..7, column 0..7, type 0..3) and exclude; every created table is compared with the documented option expansion), 1 template_jacks (length 2..4), 1 template_chord_stream; "
+                 "30% of the calls with defaults left out / by keyword, 15% made twice")
+    rep.rule = "a case is one (note set, classes, construction, tails, v, h, avoid_jack, call form, earlier groupings, list of combination / template calls); non-trivial when the note set has >= 2 notes"
     stats = Counter()
-    settings = [(v, h, j) for v in V_WINDOWS for h in H_WINDOWS for j in (True, False)]
-    for _ in range(N):
+    obs = Counter()
+    for i in range(N):
         if rep.out_of_time(22, 400):
             break
-        notes = _random_notes(rng)
-        base = dict(notes=notes, cls=rng.choice(["base", "base", "osu"]), tails=rng.random() < 0.6)
+        plain = i % 4 == 3
+        base, times, vws, hws = _random_base(rng, plain)
+        notes = base["notes"]
+        keys = base.get("keys", KEYS)
+        settings = [(v, h, j) for v in vws for h in hws for j in (True, False)]
         with_combos = set(rng.sample(range(len(settings)), 3))
-        for i, (v, h, j) in enumerate(settings):
-            case = dict(base, v=v, h=h, jack=j, combos=_random_cfgs(rng) if i in with_combos else [])
+        stats["note_sets"] += 1
+        for k in ("entry", "tails_arg", "np_scalars", "times", "cls"):
+            if base.get(k) not in (None, "base"):
+                stats[f"{k}={base[k]}"] += 1
+        for kind, lay in (base.get("layout") or {}).items():
+            stats[f"list_via_{lay['via']}"] += 1
+        if any(n[2] == 0 for n in notes):
+            stats["zero_length_hold"] += 1
+        for i_s, (v, h, j) in enumerate(settings):
+            case = dict(base, v=v, h=h, jack=j, combos=_random_cfgs(rng, keys) if i_s in with_combos else [])
+            if not plain:
+                r = rng.random()
+                if r < 0.15:
+                    case["group_call"] = "positional"
+                elif r < 0.4:
+                    case["group_call"] = "defaults"
+                if rng.random() < 0.2:
+                    case["before"] = [list(rng.choice(settings)) for _ in range(rng.choice([1, 2]))]
             rep.case(case, nontrivial=len(notes) >= 2)
             stats["groupings"] += 1
             stats["combination_calls"] += sum(1 for c in case["combos"] if c["kind"] == "combinations")
             stats["chord_filter_calls"] += sum(1 for c in case["combos"] if c["kind"] == "combinations" and c["chord"])
+            stats["filters_with_several_base_rows"] += sum(1 for c in case["combos"] if c["kind"] == "combinations" for k in ("chord", "combo", "type") if c[k] and len(c[k]["rows"]) > 1)
             stats["template_calls"] += sum(1 for c in case["combos"] if c["kind"] != "combinations")
-            for what, d in _run_case(case):
+            for what, d in _run_case(case, obs):
                 rep.fail(what, case, d)
-    rep.extra["counts"] = dict(stats)
+    rep.extra["counts"] = dict(sorted(stats.items()))
+    rep.extra["chord_tables_beyond_per_row_bounds"] = obs["chord_tables_beyond_per_row_bounds"]
+    rep.extra["assert_per_row_bounds"] = ASSERT_PER_ROW_BOUNDS
 
 
 @replayer("grouping_and_combinations_vs_statement")
@@ -337,11 +745,15 @@ def _replay(case, what):
 
 # ---------------------------------------------------------------------------------------------- filter verdicts, exhaustively
 def _verdict_case(case):
-    """One filter (kind, rows, options, exclude) asked about one data vector: the real verdict against row membership."""
+    """One filter (kind, rows, options, exclude[, keys]) asked about one data vector: the real verdict against row
+    membership; and the filter's table against the documented option expansion."""
     import numpy as np
 
-    flt = _mk_filter(case["kind"], case, "base")
-    failed = []
+    keys = case.get("keys", KEYS)
+    flt = _mk_filter(case["kind"], case, "base", keys)
+    failed = _check_table(case["kind"], case, flt, keys, "base")
+    if case.get("data") is None:
+        return failed
     if case["kind"] == "chord":
         got = bool(flt.filter(np.array(case["data"])))
         want = _row_member(flt, case["data"])
@@ -364,51 +776,95 @@ def _verdict_case(case):
     return failed
 
 
-@bounded("C20", note="every single-row chord-size / column / type filter of length 2 (thorough: 3) with every option bitmask and exclude setting, asked about every data vector: verdict == row membership in the filter's own table")
+@bounded("C20", note="every single-row chord-size / column / type filter of length 2 (thorough: 3) for 4 and 5 keys with every option bitmask and exclude setting, asked about every data vector: verdict == row membership in the filter's own table; every such table, and every table from TWO base rows (4 keys, length 2), against the documented option expansion")
 def filter_verdicts_vs_tables(rep):
     sizes = [2] if rep.tier == "quick" else [2, 3]
-    rep.bound = (f"exhaustive for lengths {sizes}: chord-size filters from every base row in {{1..{KEYS}}}^n x option bitmask 0..7 x exclude, asked about every size vector in {{1..{KEYS}}}^n; "
-                 f"column filters from every base row in {{0..{KEYS - 1}}}^n x bitmask 0..7 x exclude, every column vector; type filters from every base row over {TYPE_NAMES} x bitmask 0..3 x exclude, every type vector over Hit/Hold/HoldTail")
-    rep.rule = "a case is one (filter kind, base row, option bitmask, exclude, data vector); all are non-trivial"
+    rep.bound = (f"exhaustive for lengths {sizes} and key counts K in (4, 5): chord-size filters from every base row in {{1..K}}^n x option bitmask 0..7 x exclude, asked about every size vector in {{1..K}}^n; "
+                 f"column filters from every base row in {{0..K-1}}^n x bitmask 0..7 x exclude, every column vector; type filters from every base row over {TYPE_NAMES} x bitmask 0..3 x exclude, every type vector over Hit/Hold/HoldTail; "
+                 "each created table compared with the documented option expansion; then every ORDERED PAIR of base rows of length 2 for 4 keys x every bitmask (exclude False): table against the documented expansion, "
+                 "and in the thorough tier (column and type filters) the verdict about every data vector")
+    rep.rule = "a case is one (filter kind, key count, base row(s), option bitmask, exclude, data vector) or, for the table clause, one created filter; all are non-trivial"
     rep.exhaustive = True
     import numpy as np
 
     T = _types("base")
+    obs = Counter()
+
+    def ask(kind, flt, spec, data, n, excl):
+        case = dict(spec, data=list(data))
+        rep.case(case)
+        # same comparison as _verdict_case, with the filter built once
+        if kind == "chord":
+            got, want = bool(flt.filter(np.array(data))), _row_member(flt, data)
+            what = "chord_filter_exact"
+        elif kind == "combo":
+            got, want = bool(flt.filter(np.array([data]))[0]), _row_member(flt, data)
+            what = "column_filter_exact"
+        else:
+            arr = np.empty((1, n), dtype=object)
+            for j, nme in enumerate(data):
+                arr[0, j] = T[nme]
+            got, want = bool(flt.filter(arr)[0]), _type_pass(flt, [T[x] for x in data])
+            what = "type_filter_exact"
+        if got != want:
+            rep.fail(what, case, f"data {list(data)}: filter says {got}, row membership says {want}; table {[[getattr(c, '__name__', c) for c in r] for r in flt.ar.tolist()]}, exclude={excl}")
+
+    def kinds(keys):
+        return (("chord", range(1, keys + 1), range(8), range(1, keys + 1)),
+                ("combo", range(keys), range(8), range(keys)),
+                ("type", TYPE_NAMES, range(4), TYPE_NAMES[:3]))
+
     for n in sizes:
-        for kind, alphabet, masks, data_alphabet in (("chord", range(1, KEYS + 1), range(8), range(1, KEYS + 1)),
-                                                     ("combo", range(KEYS), range(8), range(KEYS)),
-                                                     ("type", TYPE_NAMES, range(4), TYPE_NAMES[:3])):
-            for row in product(alphabet, repeat=n):
+        for keys in (4, 5):
+            for kind, alphabet, masks, data_alphabet in kinds(keys):
+                if kind == "type" and keys != 4:
+                    continue                                        # type filters do not depend on the key count
+                for row in product(alphabet, repeat=n):
+                    for mask in masks:
+                        for excl in (False, True):
+                            spec = dict(kind=kind, rows=[list(row)], options=mask, exclude=excl)
+                            if keys != KEYS:
+                                spec["keys"] = keys
+                            try:
+                                flt = _mk_filter(kind, spec, "base", keys)
+                            except Exception as ex:
+                                rep.case(spec)
+                                rep.fail("filter_create_completes", spec, f"{type(ex).__name__}: {ex}")
+                                continue
+                            for what, d in _check_table(kind, spec, flt, keys, "base"):
+                                rep.fail(what, dict(spec, data=None), d)
+                            for data in product(data_alphabet, repeat=n):
+                                if rep.out_of_time(25, 400):
+                                    rep.exhaustive = False
+                                    return
+                                ask(kind, flt, spec, data, n, excl)
+    # ---- two base rows: the options apply to EVERY base row
+    n, keys = 2, KEYS
+    for kind, alphabet, masks, data_alphabet in kinds(keys):
+        rows = [list(r) for r in product(alphabet, repeat=n)]
+        for r1 in rows:
+            for r2 in rows:
+                if r1 == r2:
+                    continue
                 for mask in masks:
-                    for excl in (False, True):
-                        spec = dict(kind=kind, rows=[list(row)], options=mask, exclude=excl)
-                        try:
-                            flt = _mk_filter(kind, spec, "base")
-                        except Exception as ex:
-                            rep.case(spec)
-                            rep.fail("filter_create_completes", spec, f"{type(ex).__name__}: {ex}")
-                            continue
+                    spec = dict(kind=kind, rows=[r1, r2], options=mask, exclude=False)
+                    if rep.out_of_time(25, 400):
+                        rep.exhaustive = False
+                        return
+                    try:
+                        flt = _mk_filter(kind, spec, "base", keys)
+                    except Exception as ex:
+                        rep.case(spec)
+                        rep.fail("filter_create_completes", spec, f"{type(ex).__name__}: {ex}")
+                        continue
+                    rep.case(dict(spec, data=None))
+                    for what, d in _check_table(kind, spec, flt, keys, "base", obs):
+                        rep.fail(what, dict(spec, data=None), d)
+                    if kind != "chord" and rep.tier != "quick":
                         for data in product(data_alphabet, repeat=n):
-                            if rep.out_of_time(25, 400):
-                                rep.exhaustive = False
-                                return
-                            case = dict(spec, data=list(data))
-                            rep.case(case)
-                            # same comparison as _verdict_case, with the filter built once
-                            if kind == "chord":
-                                got, want = bool(flt.filter(np.array(data))), _row_member(flt, data)
-                                what = "chord_filter_exact"
-                            elif kind == "combo":
-                                got, want = bool(flt.filter(np.array([data]))[0]), _row_member(flt, data)
-                                what = "column_filter_exact"
-                            else:
-                                arr = np.empty((1, n), dtype=object)
-                                for j, nme in enumerate(data):
-                                    arr[0, j] = T[nme]
-                                got, want = bool(flt.filter(arr)[0]), _type_pass(flt, [T[x] for x in data])
-                                what = "type_filter_exact"
-                            if got != want:
-                                rep.fail(what, case, f"data {list(data)}: filter says {got}, row membership says {want}; table {[[getattr(c, '__name__', c) for c in r] for r in flt.ar.tolist()]}, exclude={excl}")
+                            ask(kind, flt, spec, data, n, False)
+    rep.extra["chord_tables_beyond_per_row_bounds"] = obs["chord_tables_beyond_per_row_bounds"]
+    rep.extra["assert_per_row_bounds"] = ASSERT_PER_ROW_BOUNDS
 
 
 @replayer("filter_verdicts_vs_tables")
